@@ -337,7 +337,7 @@ func blocklistPart(rep *core.Report, col *collector) {
 	rep.Extra["blocklist_queries_free"] = total.free
 	rep.Extra["blocklist_reload_errors_single"] = total.reloadErrors
 	if total.blocked == 0 || total.free == 0 || total.reloadErrors == 0 {
-		core.HarnessError("blocklist part vacuous: %+v", total)
+		rep.Vacuous("blocklist part vacuous: %+v", total)
 	}
 	rep.Sample(4, map[string]any{"part": "blocklist", "line_universe": func() []string {
 		var s []string
@@ -404,7 +404,7 @@ func blocklistPart(rep *core.Report, col *collector) {
 	rep.Extra["blocklist_reload_errors_in_sequences"] = seqTotal.reloadErrors
 	rep.Extra["blocklist_reload_queries"] = seqTotal.queries
 	if nStale == 0 || seqTotal.reloadErrors == 0 {
-		core.HarnessError("reload part vacuous: stale=%d errors=%d", nStale, seqTotal.reloadErrors)
+		rep.Vacuous("reload part vacuous: stale=%d errors=%d", nStale, seqTotal.reloadErrors)
 	}
 
 	// (c) non-IPv4 input must not panic, whatever is loaded
